@@ -104,6 +104,19 @@ class Builder:
         return self.plan
 
 
+def scale_watchdog(plan):
+    """Parsing is quadratic in places; long inputs get a proportionate
+    watchdog so that slowness is not mistaken for a hang, and the very long
+    ones only go to the production-like build."""
+    n = max([len(p["text"]) for p in plan["progs"]] or [0])
+    if n > 5000:
+        plan["knobs"]["plain_only"] = 1
+        plan["knobs"]["leakcheck"] = 0
+    if n > 1500:
+        plan["knobs"]["watchdog_s"] = int(plan["knobs"].get("watchdog_s", 5) + 6 * (n / 3000.0) ** 2 + 5)
+    return plan
+
+
 def pick_files(rng, n):
     fs = []
     pool = list(gen.DW_FILES)
@@ -134,9 +147,11 @@ def choose_program(rng, in_types, dwarf, file_hint=None, bombs=True):
     """Returns (text, info)."""
     k = rng.random()
     if dwarf:
-        if k < 0.25:
+        if k < 0.2:
             return rng.choice(gen.SEED_PROGRAMS_DW), {"bomb": False, "out": ["X"], "src": "seed"}
-        if k < 0.45:
+        if k < 0.5 and in_types == ["D"]:
+            return gen.gen_dw_simple(rng), {"bomb": False, "out": ["X"], "src": "dw-simple"}
+        if k < 0.6:
             c = [q for q, f in gen.corpus() if f is not None]
             if c:
                 return rng.choice(c), {"bomb": False, "out": ["X"], "src": "corpus"}
@@ -268,9 +283,22 @@ def gen_history(rng, profile, faults=False, sweep=False, hostile=False, reuse=Fa
             k = rng.random()
             types = [] if k < 0.45 else [rng.choice("IS") for _ in range(rng.randint(1, 3))]
             ins = []
-            for _ in range(rng.choice([1, 1, 2])):
+            mixed = rng.random() < 0.3
+            for _ in range(rng.choice([1, 1, 2, 3] if mixed else [1, 1, 2])):
                 i = b.i()
-                b.setup.append(P.step(0, "MKIN", i, *[lit_item(rng, t) for t in types]))
+                its = list(types)
+                if mixed and its and ins:
+                    # same query, input stacks of different shape: one slot of
+                    # another type, or one slot more or less
+                    m = rng.random()
+                    j = rng.randrange(len(its))
+                    if m < 0.6:
+                        its[j] = "S" if its[j] == "I" else "I"
+                    elif m < 0.8:
+                        its.insert(j, rng.choice("IS"))
+                    else:
+                        del its[j]
+                b.setup.append(P.step(0, "MKIN", i, *[lit_item(rng, t) for t in its]))
                 ins.append(i)
             groups.append({"types": types, "inputs": ins, "dw": False})
 
@@ -368,7 +396,15 @@ def gen_history(rng, profile, faults=False, sweep=False, hostile=False, reuse=Fa
             keep_at = None
             if rng.random() < 0.25 and (npulls is None or npulls > 0):
                 keep_at = rng.randint(0, min(3, (npulls or 4) - 1))
-            st, kept = task_steps(b, c, q, i, npulls, keep_at)
+            own_q = None
+            if keep_at is not None and rng.random() < 0.5:
+                # the value will outlive the query (and result) it came from
+                own_q = b.q()
+                st0 = [P.step(c, "PARSE", own_q, p)]
+                st, kept = task_steps(b, c, own_q, i, npulls, keep_at)
+                st = st0 + st + [P.step(c, "DROPQ", own_q)]
+            else:
+                st, kept = task_steps(b, c, q, i, npulls, keep_at)
             if kept is not None and not hostile:
                 # a value travels from this execution into another one
                 depth = 0
@@ -376,7 +412,9 @@ def gen_history(rng, profile, faults=False, sweep=False, hostile=False, reuse=Fa
                 top = out_t[-1] if out_t else "X"
                 text2, info2 = choose_program(rng, [top] if top in ("I", "S", "Q", "QS", "QQ", "E", "A", "U", "D")
                                               else [], top in ("E", "A", "U", "D"), bombs=False) \
-                    if top != "X" else (rng.choice(["dup", "type", "\"%s\"", "[dup]", "apply", "elem", "child", "value"]), {"out": ["X"]})
+                    if top not in ("X", "B") else (rng.choice(["dup", "type", "\"%s\"", "[dup]", "apply", "elem", "child", "value",
+                                                               "apply", "(|F| 5 F)", "(|F| (1, 2) F)", "5 swap apply",
+                                                               "(|F| F)", "dup apply"]), {"out": ["X"]})
                 q2 = b.q()
                 i2 = b.i()
                 extra = [P.step(c, "PARSE", q2, b.prog(text2, 0)),
@@ -422,6 +460,7 @@ def gen_history(rng, profile, faults=False, sweep=False, hostile=False, reuse=Fa
     # the combination is not generated (DESIGN.md 4.2).
     if any(f.get("backing") for f in plan["files"]):
         plan["knobs"]["deny_mmap"] = 0
+    scale_watchdog(plan)
 
     # ---- epilogue: every program once more, sequentially, in the laden process
     if not sweep:
@@ -481,4 +520,34 @@ def gen_reuse(rng, profile):
             b.setup += st
         b.setup.append(P.step(0, "DROPI", i))
         b.setup.append(P.step(0, "DROPV", v))
+    return b.merge()
+
+
+def gen_mustfail(rng, profile="C14"):
+    """Programs whose run-time failure is certain by construction, with the
+    expected outcome attached to every pull; two clients, so that a failure
+    arrives while other result sets are live."""
+    from . import mustfail
+    b = Builder(rng, profile)
+    plan = b.plan
+    common_knobs(rng, plan)
+    plan["knobs"]["leakcheck"] = 0
+    plan["knobs"]["fresh_voc"] = 1
+    i = b.i()
+    b.setup.append(P.step(0, "MKIN", i))
+    nclients = rng.choice([1, 2, 2, 3])
+    for c in range(nclients):
+        b.scripts[c] = []
+    for _ in range(rng.choice([2, 3, 4, 6])):
+        text, exp = rng.choice(mustfail.TABLE)
+        c = rng.randrange(nclients)
+        q = b.q()
+        r = b.res()
+        st = [P.step(c, "PARSE", q, b.prog(text, rng.choice([0, 1, 2]))), P.step(c, "EXEC", r, q, i)]
+        for e in exp:
+            s = P.step(c, "PULL", r)
+            s["expect"] = e
+            st.append(s)
+        st.append(P.step(c, "CANCEL", r))
+        b.scripts[c] += st
     return b.merge()
